@@ -115,7 +115,9 @@ Next == /\ l <= Len(Rec)
                     x1 == [ex EXCEPT !.count = e.count, !.finished = e.finished, !.rip = ToInt(e.post.rip),
                                      !.depth = IF e.out = "ok" /\ i.m = "call" THEN ex.depth + 1
                                                ELSE IF e.out = "ok" /\ i.m = "ret" /\ ~e.finished THEN ex.depth - 1 ELSE ex.depth]
-                    f1 == IF e.out = "ok" /\ i.m \in Known THEN flow \o FlowEvent(ex, Ann(i, [rip |-> e.post.rip]), FlagsRec(st)) ELSE flow
+                    f0 == IF e.out = "ok" /\ i.m \in Known THEN flow \o FlowEvent(ex, Ann(i, [rip |-> e.post.rip]), FlagsRec(st)) ELSE flow
+                    \* after a reported log mismatch the history is resynchronised with the observed log (one verdict per defect)
+                    f1 == IF e.trace # Compress(f0) THEN Decompress(e.trace) ELSE f0
                 IN /\ IF b = {} THEN TRUE ELSE PrintT(<<"VERDICT", e.c, e.n, e.i.code, b>>)
                    /\ st' = s1 /\ ex' = x1 /\ flow' = f1
                    /\ hist' = IF e.out = "ok" THEN Append(hist, [st |-> s1, ex |-> x1, flow |-> f1, mh |-> e.mh])
